@@ -282,16 +282,36 @@ fn run_program(ctx: &mut Ctx, fam: &str, k: u64, r: &mut Rng) {
         if plan.probe_with_gradients_stored {
             ctx.count("cases_probed_with_gradients_stored", 1);
         }
-        if residual != (0, 0) && !p.leaves().is_empty() && !plan.probe_with_gradients_stored {
+        let judge_mid = !p.leaves().is_empty() && !plan.probe_with_gradients_stored;
+        let mut mid_bad = residual != (0, 0) && judge_mid;
+        let mut end_bad = before != after;
+        // A discrepancy must reproduce: something retained per execution shows in every further execution of the same
+        // program, whereas lazily grown per-thread state of bounded size (a lookup table that is filled, or emptied and
+        // refilled, as geometries come by) settles. Three more executions, each judged like the first.
+        if mid_bad || end_bad {
+            ctx.count("ledger_discrepancies_rechecked", 1);
+            for _ in 0..3 {
+                let b2 = ledger::live();
+                let o2 = exercise(&p, &plan);
+                let a2 = ledger::live();
+                let r2 = (o2.mid.0 - b2.0 - 1 - leaves_only.0, o2.mid.1 - b2.1 - vec_bytes - leaves_only.1);
+                mid_bad &= r2 != (0, 0);
+                end_bad &= b2 != a2;
+            }
+            if !mid_bad && !end_bad {
+                ctx.count("ledger_discrepancies_not_reproduced", 1);
+            }
+        }
+        if mid_bad {
             ctx.violation(
                 &format!("C18|{}|residue-after-dropping-results", sub),
-                format!("with every result dropped and every gradient cleared, {} block(s) / {} byte(s) beyond the leaves themselves are still allocated (pending value or retained node)\nprogram: {}\npasses: {:?}", residual.0, residual.1, p.pretty(), plan.passes),
+                format!("with every result dropped and every gradient cleared, {} block(s) / {} byte(s) beyond the leaves themselves are still allocated (pending value or retained node), and again in three further executions\nprogram: {}\npasses: {:?}", residual.0, residual.1, p.pretty(), plan.passes),
             );
         }
-        if before != after {
+        if end_bad {
             ctx.violation(
                 &format!("C18|{}|ledger-not-conserved", sub),
-                format!("live allocations before the program {:?} (blocks, bytes), after everything was dropped {:?}\nprogram: {}\npasses: {:?}", before, after, p.pretty(), plan.passes),
+                format!("live allocations before the program {:?} (blocks, bytes), after everything was dropped {:?}; three further executions each left more behind\nprogram: {}\npasses: {:?}", before, after, p.pretty(), plan.passes),
             );
         }
     }
